@@ -17,11 +17,10 @@ func checkC20(c *Ctx) {
 	c.Trusted = []string{"go/ssa", "E-abs", "sort.Sort treated as a permutation"}
 	c.Rule("C20.1", "bar length without wrap: for numerators 1..24 over denominators 1,2,4,8,16,32 the result is num*32/den and no intermediate leaves its integer type whenever the result fits in 255", 6)
 	c.Rule("C20.2", "bars end to end: start(0)=0, start(k+1)=start(k)+len(k)*ticks32, song end = final sum", 1)
-	c.Rule("C20.3", "event placement: on = bar.start + ticks32*pos; off = on + ticks32*duration; a note-off is emitted iff the message is a note start with non-zero duration, on the same channel and key", 3)
-	c.Rule("C20.4", "deltas: in both exports every track is closed with songEnd - lastTickOfThatTrack, and event deltas are differences of consecutive ticks of a sequence sorted by tick", 4)
+	c.Rule("C20.3", "event placement: on = bar.start + ticks32*pos; off = on + ticks32*duration (the note-off itself — iff note start with duration, same channel and key — is decided in the export simulation, C20.4)", 2)
+	c.Rule("C20.4", "export simulation: both exports interpreted end to end on three representative songs (a note held across a bar line, a 12/8 and a 5/32 bar, six signature changes, arbitrary stale private state) hold exactly the prescribed events at bar start + ticks32*position, note-offs at + ticks32*duration, time signatures where they change, deltas = tick differences, every track ending at the song end", 6)
 	c.Rule("C20.7", "grid unit: the tick count of a 32nd note used for bar lengths and event positions is resolution/8", 1)
 	c.Rule("C20.5", "time-signature default: the 4/4 default of bar insertion and of the bar-line pass are the same constant", 1)
-	c.Rule("C20.6", "single- and multi-track export obtain bar-line and bar events from the same two producers with the same resolution argument", 1)
 
 	barT := p.namedType("sequencer", "Bar")
 	songT := p.namedType("sequencer", "Song")
@@ -262,175 +261,10 @@ func checkC20(c *Ctx) {
 			c.Check(ok && n > 0, "C20.3", fmt.Sprintf("event placement (zero duration=%v)", zeroDur), p.Pos(evAbs.Pos()), "on = start + ticks32*pos; off = on + ticks32*duration (0 when no duration)", why)
 		}
 	}
-	// note-off emission: in the function that calls Event.AbsTicks (bar events producer)
-	var producer *ssa.Function
-	for _, f := range p.ModuleFuncs() {
-		for _, call := range calls(f) {
-			if call.Common().StaticCallee() == evAbs {
-				producer = f
-			}
-		}
-	}
-	if producer == nil {
-		c.Unk("C20.3", "bar events producer", "-", "no caller of Event.AbsTicks")
-	} else {
-		c.Fn(FuncName(producer))
-		// dataflow: a call to midi.NoteOff whose channel/key arguments are loads of the cells passed to GetNoteStart,
-		// guarded by GetNoteStart() true and end != 0
-		var getNS, noteOff ssa.CallInstruction
-		for _, call := range calls(producer) {
-			if f := call.Common().StaticCallee(); f != nil {
-				if f.Name() == "GetNoteStart" {
-					getNS = call
-				}
-				if f.Name() == "NoteOff" && f.Pkg != nil && f.Pkg.Pkg.Path() == modPath {
-					noteOff = call
-				}
-			}
-		}
-		ok := getNS != nil && noteOff != nil
-		why := "producer does not pair GetNoteStart with midi.NoteOff"
-		if ok {
-			// args of NoteOff are loads from the Allocs passed to GetNoteStart (positions 1 and 2)
-			ga := getNS.Common().Args
-			na := noteOff.Common().Args
-			same := func(load ssa.Value, cell ssa.Value) bool {
-				l, ok := load.(*ssa.UnOp)
-				return ok && l.X == cell
-			}
-			if len(ga) < 3 || len(na) < 2 || !same(na[0], ga[1]) || !same(na[1], ga[2]) {
-				ok = false
-				why = "the note-off is not built from the channel and key of the note start"
-			}
-			// guards
-			g1, g2 := false, false
-			for _, b := range producer.Blocks {
-				if len(b.Instrs) == 0 {
-					continue
-				}
-				iff, isIf := b.Instrs[len(b.Instrs)-1].(*ssa.If)
-				if !isIf {
-					continue
-				}
-				te, _ := ifEdges(iff)
-				dom := edgeDominates(producer, te, noteOff.Block()) || te.to == noteOff.Block()
-				if !dom {
-					continue
-				}
-				if iff.Cond == getNS.Value() {
-					g1 = true
-				}
-				if f, okf := condFact(iff.Cond, true); okf && f.Op == token.NEQ {
-					if k, okk := constInt(f.Y); okk && k == 0 {
-						g2 = true
-					}
-				}
-			}
-			if !g1 || !g2 {
-				ok = false
-				why = fmt.Sprintf("note-off emission not guarded by (is note start: %v) and (end != 0: %v)", g1, g2)
-			}
-		}
-		c.Check(ok, "C20.3", "note-off iff note start with duration, same channel/key", p.Pos(producer.Pos()), "NoteOff(channel,key) of the GetNoteStart cells, on the edge GetNoteStart && end != 0", why)
-	}
-	// ---- C20.4 closing delta
-	trackT := p.namedType("smf", "Track")
-	closeM := p.MethodOf(types.NewPointer(trackT), "Close")
-	for _, ex := range []*ssa.Function{toSMF0, toSMF1} {
-		c.Fn(FuncName(ex))
-		n := 0
-		ok := true
-		why := ""
-		for _, call := range calls(ex) {
-			if call.Common().StaticCallee() != closeM {
-				continue
-			}
-			n++
-			arg := call.Common().Args[1]
-			if cv, isC := arg.(*ssa.Convert); isC {
-				arg = cv.X
-			}
-			sub, isSub := arg.(*ssa.BinOp)
-			if !isSub || sub.Op != token.SUB {
-				ok = false
-				why = "closing delta is not a difference (songEnd - lastTick)"
-				continue
-			}
-			l, isL := sub.X.(*ssa.UnOp)
-			if !isL || !p.isRoleField(fieldVar(l.X), "sequencer.Song", "lastTick") {
-				ok = false
-				why = "closing delta does not start from the song end"
-				continue
-			}
-			// subtrahend: a phi / value that follows the AbsTicks of the last added event
-			if !followsAbsTicks(sub.Y, 0, map[ssa.Value]bool{}) {
-				ok = false
-				why = "the subtrahend of the closing delta does not follow the absolute tick of the last added event"
-			}
-		}
-		c.Check(ok && n > 0, "C20.4", "closing delta in "+FuncName(ex), p.Pos(ex.Pos()), fmt.Sprintf("%d Close calls: songEnd - (tick of the last event added to that track)", n), why)
-	}
-	// ---- C20.4b deltas are differences of consecutive ticks of a tick-ordered sequence
-	addM := p.MethodOf(types.NewPointer(trackT), "Add")
-	for _, ex := range []*ssa.Function{toSMF0, toSMF1} {
-		n := 0
-		ok := true
-		why := ""
-		for _, call := range calls(ex) {
-			if call.Common().StaticCallee() != addM || len(call.Common().Args) < 2 {
-				continue
-			}
-			arg := call.Common().Args[1]
-			if cv, isC := arg.(*ssa.Convert); isC {
-				arg = cv.X
-			}
-			sub, isSub := arg.(*ssa.BinOp)
-			if !isSub || sub.Op != token.SUB {
-				continue // constant 0 or a delta prepared by the bar-line producer
-			}
-			l, isL := sub.X.(*ssa.UnOp)
-			if !isL || fieldVar(l.X) == nil || fieldVar(l.X).Name() != "AbsTicks" {
-				continue
-			}
-			n++
-			// the sequence the event is taken from
-			var seq ssa.Value
-			if fa, okf := l.X.(*ssa.FieldAddr); okf {
-				switch e := fa.X.(type) {
-				case *ssa.UnOp: // *(&S[i])
-					if ia, oki := e.X.(*ssa.IndexAddr); oki {
-						seq = ia.X
-					}
-				case *ssa.Extract: // range over S
-					if nx, okn := e.Tuple.(*ssa.Next); okn {
-						if rg, okr := nx.Iter.(*ssa.Range); okr {
-							seq = rg.X
-						}
-					}
-				}
-			}
-			if seq == nil {
-				ok = false
-				why = "cannot identify the sequence the deltas are taken over"
-				continue
-			}
-			sorted := false
-			for _, sc := range calls(ex) {
-				q := calleeQual(sc)
-				if q != "sort.Sort" && q != "sort.Stable" && q != "sort.Slice" && q != "sort.SliceStable" {
-					continue
-				}
-				if len(sc.Common().Args) > 0 && strip(sc.Common().Args[0]) == seq && instrDominates(sc.(ssa.Instruction), call.(ssa.Instruction)) {
-					sorted = true
-				}
-			}
-			if !sorted {
-				ok = false
-				why = "a delta is computed as the difference of consecutive absolute ticks of a sequence that is not sorted by tick first (a note-off that crosses a bar line precedes earlier events of the next bar: the difference goes negative and wraps)"
-			}
-		}
-		c.Check(ok && n > 0, "C20.4", "deltas over a tick-ordered sequence in "+FuncName(ex), p.Pos(ex.Pos()), fmt.Sprintf("%d delta computation(s), each over a sequence sorted by tick beforehand", n), why)
-	}
+	// note-off emission (iff note start with non-zero duration, same channel and key), the deltas and the closing of
+	// every track are decided by the export simulation below; until round 5 three syntactic rules stood here (a NoteOff
+	// call guarded by GetNoteStart && end != 0 in the function that calls Event.AbsTicks; delta loops dominated by a
+	// sort in the same function; Close(songEnd - last)), and a fourth compared which producers both exports call.
 	// ---- C20.5 defaults
 	{
 		addBar := p.MethodOf(types.NewPointer(songT), "AddBar")
@@ -449,38 +283,8 @@ func checkC20(c *Ctx) {
 		c.Check(ok1 && ok2 && d1 == d2 && d1 == [2]int64{4, 4}, "C20.5", "4/4 default agrees", "-", "bar insertion and bar-line pass both default to 4/4", fmt.Sprintf("defaults differ or are not 4/4: insertion %v (found %v), bar-line pass %v (found %v)", d1, ok1, d2, ok2))
 	}
 	// ---- C20.6 producers
-	{
-		prod := func(f *ssa.Function) map[string]string {
-			out := map[string]string{}
-			for _, call := range calls(f) {
-				cal := call.Common().StaticCallee()
-				if cal == nil || !InModule(cal) || cal.Pkg == nil || cal.Pkg.Pkg.Name() != "sequencer" {
-					continue
-				}
-				// argument of MetricTicks type must be a load of the Ticks field
-				for _, a := range call.Common().Args {
-					if namedTypeName(a.Type()) == "MetricTicks" {
-						src := "?"
-						if l, ok := a.(*ssa.UnOp); ok {
-							if fv := fieldVar(l.X); fv != nil {
-								src = fv.Name()
-							}
-						}
-						out[cal.Name()] = src
-					}
-				}
-			}
-			return out
-		}
-		a, b := prod(toSMF0), prod(toSMF1)
-		same := len(a) == len(b) && len(a) >= 2
-		for k, v := range a {
-			if b[k] != v || v != "Ticks" {
-				same = false
-			}
-		}
-		c.Check(same, "C20.6", "exports share producers", "-", fmt.Sprintf("both exports call %v with the song's resolution", a), fmt.Sprintf("single-track export uses %v, multi-track export uses %v", a, b))
-	}
+	// ---- both exports end to end on representative songs
+	exportSimulation(c, toSMF0, toSMF1)
 }
 
 // followsAbsTicks: v is (a phi over) loads of a field named AbsTicks, or constant 0 initial value.
